@@ -5,13 +5,17 @@ CONSTANTS
   AcSet = {TRUE, FALSE}
   OptSet = {"tight"}
   MeshSet = {FALSE}
-  DclSet = {0, 1, 2}
+  DclSet = {"none", "f", "F", "r", "fr"}
   EgcSet = {TRUE}
   VbandSet = {"wide"}
   PlimSet = {"loose", "tight"}
   QlimSet = {"loose"}
   RateSet = {"loose"}
   VarSet = {1}
+  ShiftSet = {0}
+  SnSet = {1, 10}
+  GhostSet = {"none", "sgen", "load", "storage"}
+  MaxDev = 1
   CtrlSets = {}
   Profiles = {}
   MaxCosted = 2
@@ -23,3 +27,5 @@ INVARIANT PwlTranscriptionAgrees
 INVARIANT GridOptSane
 INVARIANT NoUnclassifiedDeviation
 INVARIANT GridSmall
+INVARIANT GhostRowVanishes
+INVARIANT DclWellFormed
